@@ -10,6 +10,7 @@ import (
 	"os"
 	"strconv"
 	"strings"
+	"time"
 
 	vegeta "github.com/tsenart/vegeta/v12/lib"
 	"vharness/gen"
@@ -206,6 +207,52 @@ func runBoundaryStreams(r *kit.Rng, s *kit.Summary, cd codec, n int) {
 	}
 }
 
+// runFailingEncode: a result that cannot be marshalled (a year outside 0..9999 makes Time.MarshalJSON
+// fail) is handed to a JSON encoder between ordinary ones. Whatever the encoder does afterwards, the bytes
+// at the writer after every call must decode to exactly the records of the calls that returned nil.
+func runFailingEncode(r *kit.Rng, s *kit.Summary, n int) {
+	for i := 0; i < n; i++ {
+		var cd codec
+		for _, c := range codecs {
+			if c.name == "json" {
+				cd = c
+			}
+		}
+		rs := genStream(r, cd, 0)
+		for len(rs) < 4 {
+			rs = append(rs, genStream(r, cd, 0)...)
+		}
+		bad := 1 + r.Pick(len(rs)-2)
+		rs[bad].Timestamp = time.Date(10000+r.Pick(5), 1, 1, 0, 0, 0, 0, time.UTC)
+		if r.Chance(0.5) {
+			rs[bad].Body = make([]byte, 100+r.Pick(400)) // a longer half-written object
+		}
+		w := &recWriter{}
+		enc := cd.enc(w)
+		okCalls := 0
+		sawError := false
+		for j := range rs {
+			x := rs[j]
+			err := enc.Encode(&x)
+			if err == nil {
+				okCalls++
+			} else {
+				sawError = true
+			}
+			got, term := decodePrefix(cd, w.buf.Bytes())
+			if len(got) != okCalls || term != "eof" {
+				s.Violate(kit.Violation{Kind: "encode_not_whole_record", What: "after an Encode call that failed on an unmarshalable result, a later successful call did not emit exactly one whole record (what reached the writer does not decode to the records of the successful calls)",
+					Input:    map[string]interface{}{"codec": cd.name, "unmarshalable_at_call": bad + 1, "call": j + 1, "records": len(rs)},
+					Expected: fmt.Sprintf("%d records then eof", okCalls), Observed: fmt.Sprintf("%d records then %s", len(got), term),
+					Key: map[string]interface{}{"codec": cd.name, "after_failed_encode": true}})
+				break
+			}
+		}
+		s.Case(fmt.Sprint("failing-encode:", i), true)
+		s.Count(fmt.Sprintf("json:failing-encode saw_error=%v", sawError))
+	}
+}
+
 func bodySizes(rs []vegeta.Result) []int {
 	out := make([]int, len(rs))
 	for i := range rs {
@@ -399,4 +446,5 @@ func runC09(c *run.Ctx, s *kit.Summary) {
 			runBoundaryStreams(r, s, cd, c.N(48, 800))
 		}
 	}
+	runFailingEncode(r, s, c.N(40, 600))
 }
